@@ -102,11 +102,11 @@ func (w *wWorld) reply(call *simCall) (*pb.Message, error) {
 	p := &w.peers[j]
 	switch p.behaviour {
 	case wDialFail, wReqFail:
-		return nil, fmt.Errorf("sim: request failed")
+		return nil, simReqErr(call.p, "request failed")
 	case wSilent:
 		select {
 		case <-time.After(10 * time.Second):
-			return nil, fmt.Errorf("sim: read timeout")
+			return nil, simReqErr(call.p, "read timeout")
 		case <-call.ctx.Done():
 			return nil, call.ctx.Err()
 		}
